@@ -13,9 +13,9 @@ RULE = ("one case = (method or Richardson wrapper, direction, history shape, dt/
         "(method, direction, history, seed)")
 ASSUMPTIONS = ["interior bound: 4*(h^4*max|y''''|/384 + node error*(1+h*L)) + rounding; Richardson wrappers are compared at K*tolerance"]
 FLOORS = {"quick": {"quiescent_checks": 150, "pieces_checked": 2000, "queries_checked": 8000, "backward_runs_10_pieces": 20, "post_terminal_objects": 10,
-                    "post_failure_objects": 10, "splitting_runs": 4, "richardson_runs": 3, "failures_inside_a_retry": 3, "richardson_runs_6_or_more_levels": 6, "time_scaled_runs": 9, "near_node_queries": 2000},
+                    "post_failure_objects": 10, "splitting_runs": 4, "richardson_runs": 3, "failures_inside_a_retry": 3, "richardson_runs_6_or_more_levels": 6, "time_scaled_runs": 9, "near_node_queries": 2000, "state_edits_between_calls": 16},
           "thorough": {"quiescent_checks": 800, "pieces_checked": 20000, "queries_checked": 50000, "backward_runs_10_pieces": 90, "post_terminal_objects": 50,
-                       "post_failure_objects": 50, "splitting_runs": 40, "richardson_runs": 30, "failures_inside_a_retry": 10, "richardson_runs_6_or_more_levels": 20, "time_scaled_runs": 50, "near_node_queries": 20000}}
+                       "post_failure_objects": 50, "splitting_runs": 40, "richardson_runs": 30, "failures_inside_a_retry": 10, "richardson_runs_6_or_more_levels": 20, "time_scaled_runs": 50, "near_node_queries": 20000, "state_edits_between_calls": 60}}
 HISTORIES = ["single", "split", "terminal_continue", "fail_resume", "events_nonterminal", "query_between", "fail_in_retry"]
 QUICK_METHODS = ["RK45CKSolver", "DOPRI45", "RK4Solver", "EulerSolver", "HeunEulerSolver", "RK8713MSolver", "ABAs5o6HSolver", "SymplecticEulerSolver",
                  "BABs9o7HSolver", "BackwardEuler", "RadauIIA5", "GaussLegendre4", "CrankNicolson", "LobattoIIIC4", "MidpointSolver", "RK108Solver"]
@@ -74,6 +74,17 @@ def gen_cases(tier, seed):
                 cases.append(dict(method=name, rich=0, direction=d, history=str(rng.choice(["single", "split", "terminal_continue"])), t0=t0 * tau, tf=(t0 + d * L) * tau, tau=tau,
                                   nsteps=float(rng.uniform(12, 40)), rtol=10 ** float(rng.uniform(-8, -4)), dtype="float64", pseed=int(rng.integers(1 << 30)),
                                   cost=(2 if M[name]["explicit"] else 15)))
+    # the caller edits the newest recorded state in place between two calls (an impulse; integrate()'s documentation names "manipulating the state of
+    # the system" as a use of callbacks): the next piece starts at the edited state with the slope of the edited state
+    rng3 = rng_for(603, seed)
+    for name in names:
+        for d in (1, -1):
+            if tier == "quick" and rng3.random() < 0.35:
+                continue
+            L = float(rng3.uniform(1.5, 4.0))
+            t0 = float(rng3.uniform(-3, 3))
+            cases.append(dict(method=name, rich=0, direction=d, history="state_edit", t0=t0, tf=t0 + d * L, nsteps=float(rng3.uniform(12, 40)),
+                              rtol=10 ** float(rng3.uniform(-8, -4)), dtype="float64", pseed=int(rng3.integers(1 << 30)), cost=(2 if M[name]["explicit"] else 12)))
     return cases
 
 
@@ -131,6 +142,8 @@ def _check_dense(rec, system, prob, spec, info, feats, f, label, rng):
     # (1) recorded states reproduced
     idx = list(range(len(t))) if len(t) <= 60 else sorted(set(int(i) for i in np.linspace(0, len(t) - 1, 60)))
     for k in idx:
+        if k in getattr(rec, "edited_rows", ()):
+            continue      # (the caller put a jump there: the piece before ends at the old state, the piece after starts at the new one)
         try:
             v = sol(t[k])
         except Exception as e:
@@ -327,6 +340,20 @@ def run_case(spec):
             system.sol(np.asarray(t0 + 0.25 * (tf - t0)))
             system.sol(np.asarray([t0 + 0.1 * (tf - t0), t0 + 0.4 * (tf - t0)]))
         step("after_part2")
+    elif hist == "state_edit":
+        step("after_part1", t=t0 + 0.4 * (tf - t0))
+        if len(system) > 1:
+            # an edit of ALL components and (second time) of the last component only (for a separable system with the default kick mask that is
+            # a momentum: the first kick of a splitting step does not depend on it, so the recorded rows do not show a stale slope)
+            system.y[-1][...] = system.y[-1] + np.asarray([0.3, -0.2], dtype=dt_)
+            rec.edited_rows = {len(system) - 1}
+            rec.bump("state_edits_between_calls")
+        step("after_edit_part2", t=t0 + 0.7 * (tf - t0))
+        if len(system) > 1:
+            system.y[-1][-1] = system.y[-1][-1] + dt_.type(0.25)
+            rec.edited_rows = set(rec.edited_rows) | {len(system) - 1}
+            rec.bump("state_edits_between_calls")
+        step("after_edit_part3")
     elif hist == "events_nonterminal":
         step("after_run_with_events", events=[ev_nt])
     elif hist == "terminal_continue":
